@@ -335,18 +335,24 @@ func surface(r *rand.Rand, text string, idPrefix string, n *int, attached, other
 		}
 		// alternative float spellings
 		if r.Intn(3) == 0 {
-			l = floatRe.ReplaceAllStringFunc(l, func(s string) string {
-				f, err := strconv.ParseFloat(s, 64)
-				if err != nil {
+			l = outsideStrings(l, func(seg string) string {
+				return floatRe.ReplaceAllStringFunc(seg, func(s string) string {
+					f, err := strconv.ParseFloat(s, 64)
+					if err != nil {
+						return s
+					}
+					switch r.Intn(3) {
+					case 0:
+						return strconv.FormatFloat(f, 'e', -1, 64)
+					case 1:
+						t := strconv.FormatFloat(f, 'f', -1, 64)
+						if !strings.Contains(t, ".") {
+							t += "."
+						}
+						return t + "0"
+					}
 					return s
-				}
-				switch r.Intn(3) {
-				case 0:
-					return strconv.FormatFloat(f, 'e', -1, 64)
-				case 1:
-					return strconv.FormatFloat(f, 'f', -1, 64) + "0"
-				}
-				return s
+				})
 			})
 		}
 		out = append(out, l)
@@ -355,6 +361,34 @@ func surface(r *rand.Rand, text string, idPrefix string, n *int, attached, other
 		}
 	}
 	return strings.Join(out, "\n")
+}
+
+// outsideStrings applies fn to the parts of a source line that are not inside
+// a double-quoted string literal.
+func outsideStrings(l string, fn func(string) string) string {
+	var sb strings.Builder
+	start, in := 0, false
+	for i := 0; i < len(l); i++ {
+		switch {
+		case in && l[i] == '\\':
+			i++
+		case l[i] == '"':
+			if in {
+				sb.WriteString(l[start : i+1])
+				start = i + 1
+			} else {
+				sb.WriteString(fn(l[start:i]))
+				start = i
+			}
+			in = !in
+		}
+	}
+	if in {
+		sb.WriteString(l[start:])
+	} else {
+		sb.WriteString(fn(l[start:]))
+	}
+	return sb.String()
 }
 
 var floatRe = regexp.MustCompile(`-?\b[0-9]+\.[0-9]+\b`)
